@@ -287,8 +287,33 @@ def _same_file(asked: T, path: T, kind: str) -> bool:
     return kind in PANDAS_KINDS and _is_expanded(asked, of=path)
 
 
+_STR_TYPES = ("builtins.str",)
+_PATH_TYPES = ("pathlib.Path", "pathlib.PurePath", "os.PathLike",
+               "pathlib.PosixPath", "pathlib.PurePosixPath")
+
+
+def _isinstance_of(a: T, given: str) -> Optional[bool]:
+    """truth of isinstance(path, types) for a destination given as a `str`
+    or as a `pathlib.Path` (the two forms the property names)"""
+    if len(a.args[1]) != 2:
+        return None
+    ty = Interp.unname(a.args[1][1])
+    names = []
+    for t in (ty.args if ty.op == "tuple" else (ty,)):
+        n = t.args[0] if t.op in ("global", "cls") else None
+        if n is None:
+            return None
+        names.append(n)
+    mine = _STR_TYPES if given == "str" else _PATH_TYPES
+    return any(n in mine for n in names)
+
+
 def guard_fold(live: T, path: T, prompt: bool,
-               confirm: bool = True, kind: str = "") -> Optional[bool]:
+               confirm: bool = True, kind: str = "",
+               given: Optional[str] = None) -> Optional[bool]:
+    """fold a sink's path condition; `given` = 'str' / 'Path' evaluates the
+    type tests for that form of the destination, None takes every type test
+    as passed (the destination is a path, not a handle)"""
     flags = _confirm_flags(live)
 
     def assign(a: T) -> Optional[bool]:
@@ -297,6 +322,10 @@ def guard_fold(live: T, path: T, prompt: bool,
                 return prompt
             return None
         if a.op == "call" and tm.callee_name(a) == "builtins.isinstance":
+            if given is not None:
+                v = _isinstance_of(a, given)
+                if v is not None:
+                    return v
             return True            # path is a str / Path
         if a in flags:
             return confirm         # confirmation switched on / off
@@ -353,6 +382,20 @@ def check(ctx):
         own = [a for a in chks
                if a.args[1] and _same_file(a.args[1][0], p, kind)]
         ok = declined is False
+        # ... for a destination given as str and given as pathlib.Path: a
+        # type test that recognises only one of them lets the other through
+        by_form = {g: guard_fold(e.live, p, prompt=False, kind=kind, given=g)
+                   for g in ("str", "Path")}
+        if ok:
+            bad_forms = [g for g, v in by_form.items() if v is not False]
+            ctx.ob("C17.2", e, not bad_forms,
+                   f"{kind} in {q}: guarded for destinations given as str "
+                   f"and as pathlib.Path" if not bad_forms else
+                   f"{kind} in {q}: a destination given as "
+                   f"{' / '.join(bad_forms)} is not recognised as a path by "
+                   f"the type test in front of the prompt — the existing "
+                   f"file is replaced without asking",
+                   key=f"C17.2:forms:{q}:{kind}", live=fmt(e.live))
         ctx.ob("C17.2", e, ok,
                f"{kind} in {q}: unreachable when the overwrite prompt for "
                f"its own path is declined (confirm on, real path)"
